@@ -46,38 +46,61 @@ def write_path(ctx):
         cr = v.single_comb_def(Sym("cmd_request"))
         ck = litset(conj(cr)) if cr is not None else set()
         ob1.instance("%s cmd_request" % tag, sorted(ck))
-        if not {"aw.valid", "can_write"} <= ck:
-            ob1.refute("%s:cmd_request" % tag, "write cmd_request is %s, expected aw.valid & can_write" % sorted(ck), None)
-        cw = [d for d in v.drivers("can_write") if not d.guards]
-        cwk = key(cw[0].value) if cw else None
-        ob1.instance("%s can_write" % tag, cwk)
-        if not cw or not (isinstance(cw[0].value, Op) and cw[0].value.op in (">", "<") and {key(a) for a in cw[0].value.args} == {"w_buffer.level", "w_buffer_level"}
-                          and ((cw[0].value.op == ">" and key(cw[0].value.args[0]) == "w_buffer.level") or (cw[0].value.op == "<" and key(cw[0].value.args[1]) == "w_buffer.level"))):
-            ob1.refute("%s:can_write" % tag, "can_write is %s, expected w_buffer.level > w_buffer_level (a command only for a beat that is already buffered and "
-                       "not yet reserved)" % cwk, cw[0].loc if cw else None)
+        rest = sorted(ck - {"aw.valid"})
+        if "aw.valid" not in ck or len(rest) != 1:
+            ob1.refute("%s:cmd_request" % tag, "write cmd_request is %s, expected aw.valid & <buffered-data condition>" % sorted(ck), None)
+            continue
+        CW = rest[0]                                   # role: can_write
+        cw = [d for d in v.drivers(CW) if not d.guards]
+        cwv = cw[0].value if cw else None
+        ob1.instance("%s %s" % (tag, CW), key(cwv) if cwv is not None else None)
+        LV = None                                       # role: reservation counter
+        if isinstance(cwv, Op) and cwv.op in (">", "<") and len(cwv.args) == 2:
+            big, small = (cwv.args[0], cwv.args[1]) if cwv.op == ">" else (cwv.args[1], cwv.args[0])
+            if key(big) == "w_buffer.level" and isinstance(small, (Obj, Sym)):
+                LV = key(small)
+        if LV is None:
+            ob1.refute("%s:can_write" % tag, "%s is %s, expected w_buffer.level > <reserved beats> (a command only for a beat that is already buffered and "
+                       "not yet reserved)" % (CW, key(cwv) if cwv is not None else None), cw[0].loc if cw else None)
+            continue
         pv = [d for d in v.drivers("port.cmd.valid") if d.fsm is None]
         for d in pv:
             g = v.guard_keys(d, False)
             ob1.instance("%s port.cmd.valid (regular path)" % tag, sorted(g))
             if g != {"cmd_request", "cmd_grant"} or not is1(d.value):
                 ob1.refute("%s:cmd-valid" % tag, "the regular write path drives port.cmd.valid under %s, expected cmd_request & cmd_grant" % sorted(g), d.loc)
-        q = v.single_comb_def(Sym("w_buffer_queue"))
-        dq = v.single_comb_def(Sym("w_buffer_dequeue"))
-        if litset(conj(q)) != {"port.cmd.valid", "port.cmd.ready", "port.cmd.we"} if q is not None else True:
-            ob1.refute("%s:queue" % tag, "reservation is taken on %s, expected fire(port.cmd) & we" % (key(q) if q is not None else None), None)
-        if litset(conj(dq)) != {"w_buffer.source.valid", "w_buffer.source.ready"} if dq is not None else True:
-            ob1.refute("%s:dequeue" % tag, "reservation is released on %s, expected the buffer pop" % (key(dq) if dq is not None else None), None)
-        level_counter(v, ob1, tag, "w_buffer_level", "w_buffer_queue", "w_buffer_dequeue")
-        send = v.single_comb_def(Sym("w_buffer_send"))
-        sk = litset(disj(send)) if send is not None else set()
+        lds = v.drivers(LV)
+        sigs = set()
+        for d in lds:
+            sigs |= {k.lstrip("~") for k in v.guard_keys(d, False)}
+        Q = DQ = None
+        for sg in sigs:
+            dv = v.single_comb_def(Sym(sg))
+            if dv is None:
+                continue
+            kk = litset(conj(dv))
+            if kk == {"port.cmd.valid", "port.cmd.ready", "port.cmd.we"}:
+                Q = sg
+            if kk == {"w_buffer.source.valid", "w_buffer.source.ready"}:
+                DQ = sg
+        if Q is None or DQ is None:
+            ob1.refute("%s:queue-dequeue" % tag, "the reservation counter %s is driven by %s: no strobe equal to fire(port.cmd)&we and none equal to the buffer pop" %
+                       (LV, sorted(sigs)), lds[0].loc if lds else None)
+            continue
+        level_counter(v, ob1, tag, LV, Q, DQ)
         wv = single(v, "port.wdata.valid")
         sr = single(v, "w_buffer.source.ready")
-        ob1.instance("%s data gate" % tag, {"w_buffer_send": sorted(sk), "wdata.valid": key(wv) if wv is not None else None, "source.ready": key(sr) if sr is not None else None})
-        if sk != {"w_buffer_level", "w_buffer_queue"}:
-            ob1.refute("%s:send-gate" % tag, "the data gate is %s, expected (reserved != 0) | reserving-now" % sorted(sk), None)
-        if wv is None or litset(conj(wv)) != {"w_buffer.source.valid", "w_buffer_send"} or sr is None or litset(conj(sr)) != {"port.wdata.ready", "w_buffer_send"}:
+        g1 = litset(conj(wv)) - {"w_buffer.source.valid"} if wv is not None else set()
+        g2 = litset(conj(sr)) - {"port.wdata.ready"} if sr is not None else set()
+        ob1.instance("%s data gate" % tag, {"wdata.valid": key(wv) if wv is not None else None, "source.ready": key(sr) if sr is not None else None})
+        if wv is None or sr is None or len(g1) != 1 or g1 != g2 or "w_buffer.source.valid" not in litset(conj(wv)) or "port.wdata.ready" not in litset(conj(sr)):
             ob1.refute("%s:fork-gate" % tag, "port.wdata.valid = %s and w_buffer.source.ready = %s are not gated by the same reservation term: a beat can leave the "
                        "buffer without being offered to the port (or be offered before its command)" % (key(wv) if wv is not None else None, key(sr) if sr is not None else None), None)
+        else:
+            send = v.single_comb_def(Sym(sorted(g1)[0]))
+            sk = litset(disj(send)) if send is not None else set()
+            if sk != {LV, Q}:
+                ob1.refute("%s:send-gate" % tag, "the data gate %s is %s, expected (reserved != 0) | reserving-now" % (sorted(g1)[0], sorted(sk)), None)
         # C09.2
         rp = [d for d in v.drivers("resp_buffer.sink.valid") if is1(d.value)]
         ip = [d for d in v.drivers("id_buffer.source.ready") if is1(d.value)]
@@ -87,7 +110,7 @@ def write_path(ctx):
                 continue
             g = v.guard_keys(ds[0], False)
             ob2.instance("%s %s" % (tag, what), sorted(g))
-            if g != want:
+            if not (want <= g and g - want <= {"id_buffer.source.valid", "resp_buffer.sink.ready"}):
                 ob2.refute("%s:%s" % (tag, what.replace(" ", "-")), "%s happens under %s, expected %s: the response must be produced when the last beat is really "
                            "handed to the memory port (the buffer's own ready includes the reservation gate)" % (what, sorted(g), sorted(want)), ds[0].loc)
         idp = single(v, "id_buffer.sink.valid")
@@ -106,15 +129,26 @@ def read_path(ctx):
     for rmw in (False, True):
         v = rview(ctx, rmw)
         tag = "rmw=%s" % rmw
-        cr = [d for d in v.drivers("can_read") if not d.guards]
+        cq = v.single_comb_def(Sym("cmd_request"))
+        cqk = litset(conj(cq)) if cq is not None else set()
+        rest = sorted(cqk - {"ar.valid"})
+        if "ar.valid" not in cqk or len(rest) != 1:
+            ob.refute("%s:cmd_request" % tag, "read cmd_request is %s, expected ar.valid & <reservation condition>" % sorted(cqk), None)
+            continue
+        CR = rest[0]
+        cr = [d for d in v.drivers(CR) if not d.guards]
         val = cr[0].value if cr else None
-        ob.instance("%s can_read" % tag, key(val) if val is not None else None)
-        good = isinstance(val, Op) and val.op in ("!=", "<") and {key(a) for a in val.args} == {"r_buffer_level", "buffer_depth"} and \
-            (val.op == "!=" or key(val.args[0]) == "r_buffer_level")
-        if not good:
-            ob.refute("%s:can_read" % tag, "can_read is %s, expected exactly r_buffer_level != buffer_depth: any weaker condition lets a command through when "
-                      "the reservation (and the equally deep ID/last FIFO) is full, so an ID/last entry or a data word is lost" % (key(val) if val is not None else None),
+        ob.instance("%s %s" % (tag, CR), key(val) if val is not None else None)
+        LV = None
+        if isinstance(val, Op) and val.op in ("!=", "<") and len(val.args) == 2:
+            others = [a for a in val.args if key(a) != "buffer_depth"]
+            if len(others) == 1 and isinstance(others[0], (Obj, Sym)) and (val.op == "!=" or key(val.args[0]) != "buffer_depth"):
+                LV = key(others[0])
+        if LV is None:
+            ob.refute("%s:can_read" % tag, "%s is %s, expected exactly <reserved> != buffer_depth: any weaker condition lets a command through when "
+                      "the reservation (and the equally deep ID/last FIFO) is full, so an ID/last entry or a data word is lost" % (CR, key(val) if val is not None else None),
                       cr[0].loc if cr else None)
+            continue
         fifos = {str(o): o for o in v.d.objs if o.cls == "SyncFIFO"}
         rb, ib = fifos.get("r_buffer"), fifos.get("id_buffer")
         if ob.need(rb is not None and ib is not None, "%s: r_buffer / id_buffer not found" % tag):
@@ -123,13 +157,23 @@ def read_path(ctx):
             ob.instance("%s depths" % tag, {"r_buffer": key(d1), "id_buffer": key(d2)})
             if key(d1) != "buffer_depth" or key(d2) != "buffer_depth":
                 ob.refute("%s:depths" % tag, "read data buffer depth %s / ID FIFO depth %s differ from the reservation bound buffer_depth" % (key(d1), key(d2)), rb.loc)
-        q = v.single_comb_def(Sym("r_buffer_queue")) or single(v, "r_buffer_queue")
-        dq = v.single_comb_def(Sym("r_buffer_dequeue"))
-        if q is None or litset(conj(q)) != {"port.cmd.valid", "port.cmd.ready", "~port.cmd.we"}:
-            ob.refute("%s:queue" % tag, "read reservation is taken on %s, expected fire(port.cmd) & ~we" % (key(q) if q is not None else None), None)
-        if dq is None or litset(conj(dq)) != {"r_buffer.source.valid", "r_buffer.source.ready"}:
-            ob.refute("%s:dequeue" % tag, "read reservation is released on %s, expected the buffer pop" % (key(dq) if dq is not None else None), None)
-        level_counter(v, ob, tag, "r_buffer_level", "r_buffer_queue", "r_buffer_dequeue")
+        sigs = set()
+        for d in v.drivers(LV):
+            sigs |= {k.lstrip("~") for k in v.guard_keys(d, False)}
+        Q = DQ = None
+        for sg in sigs:
+            ds_ = [d for d in v.drivers(sg) if not d.guards and not is0(d.value)]
+            if not ds_:
+                continue
+            kk = litset(conj(ds_[0].value))
+            if kk == {"port.cmd.valid", "port.cmd.ready", "~port.cmd.we"}:
+                Q = sg
+            if kk == {"r_buffer.source.valid", "r_buffer.source.ready"}:
+                DQ = sg
+        if Q is None or DQ is None:
+            ob.refute("%s:queue-dequeue" % tag, "the read reservation counter %s is driven by %s: no strobe equal to fire(port.cmd)&~we / to the buffer pop" % (LV, sorted(sigs)), None)
+            continue
+        level_counter(v, ob, tag, LV, Q, DQ)
         ip = single(v, "id_buffer.sink.valid")
         io = single(v, "id_buffer.source.ready")
         if ip is None or litset(conj(ip)) != {"ar.valid", "ar.ready"} or io is None or litset(conj(io)) != {"axi.r.valid", "axi.r.ready"}:
@@ -143,9 +187,6 @@ def read_path(ctx):
         c2 = find_connect(v, src="r_buffer.source", dst="axi.r")
         if len(c1) != 1 or (c1[0].stmt.omit and c1[0].stmt.omit & {"valid", "ready", "data"}) or len(c2) != 1 or (c2[0].stmt.omit and c2[0].stmt.omit & {"valid", "ready", "data"}):
             ob.refute("%s:rdata-path" % tag, "returned data is not forwarded port.rdata -> r_buffer -> axi.r by whole-record connects", None)
-        cq = v.single_comb_def(Sym("cmd_request"))
-        if cq is None or not {"ar.valid", "can_read"} <= litset(conj(cq)):
-            ob.refute("%s:cmd_request" % tag, "read cmd_request is %s, expected ar.valid & can_read" % (key(cq) if cq is not None else None), None)
 
 
 def shared_cmd(ctx):
@@ -180,7 +221,11 @@ def shared_cmd(ctx):
                 if not req:
                     ob4.refute("rmw-state:%s" % st, "RMW state %s drives the shared port.cmd without asserting rmw_request: the regular write/read path can drive "
                                "it in the same cycle and one of the two commands sees a ready that belongs to the other" % st, drives[0].loc)
-    for v, sig in ((w, "can_write"), (r, "can_read")):
+    def gate_of(v_, chan):
+        cq_ = v_.single_comb_def(Sym("cmd_request"))
+        r_ = sorted(litset(conj(cq_)) - {chan + ".valid"}) if cq_ is not None else []
+        return r_[0] if len(r_) == 1 else "?"
+    for v, sig in ((w, gate_of(w, "aw")), (r, gate_of(r, "ar"))):
         z = [d for d in v.drivers(sig) if is0(d.value) and "rmw_request" in v.guard_keys(d, False)]
         nz = [d for d in v.drivers(sig) if not is0(d.value)]
         later = z and nz and all(zz.order > n.order for zz in z for n in nz)
@@ -226,7 +271,49 @@ def shared_cmd(ctx):
         ob6.unknown("only %d command address sites found" % n)
 
 
+def rmw_and_ids(ctx):
+    ob7 = ctx.ob("C09.7", "read-modify-write uses the write address beat only when it is valid: every transition out of the RMW idle state into a state "
+                          "that drives port.cmd from aw.* is guarded by aw.valid (AXI allows W data before AW)", 1)
+    ob8 = ctx.ob("C09.8", "the RMW sequence is granted only when no older data beat is waiting in the write buffer (occupancy of w_buffer itself, not only the "
+                          "count of already commanded beats): otherwise aw still points at an older beat and the merge reads the wrong address", 1)
+    ob9 = ctx.ob("C09.9", "the B response takes its ID from the ID FIFO only when that FIFO has a valid entry (a command and its last data beat can be "
+                          "accepted in the same cycle, when the entry is only being pushed)", 1)
+    w = wview(ctx, True)
+    fs = w.fsms("")
+    if ob7.need(len(fs) == 1, "RMW FSM not found"):
+        f = fs[0]
+        idle = f.reset_state
+        users = {st for st in f.states if any(l.kind == "assign" and key(l.target).startswith("port.cmd.") and "aw." in " ".join(support(l.value)) for l in w.fsm_leaves(f, st))}
+        outs = [l for l in w.fsm_leaves(f, idle) if l.kind == "next" and isinstance(l.value, Const) and l.value.v in users]
+        if ob7.need(len(outs) >= 1 and len(users) >= 1, "RMW idle exit / address-using states not found"):
+            for l in outs:
+                g = w.guard_keys(l)
+                ob7.instance("RMW %s -> %s" % (idle, l.value.v), sorted(g))
+                if "aw.valid" not in g:
+                    ob7.refute("rmw-without-aw-valid", "the RMW sequence leaves %s for %s under %s, without aw.valid, and then issues native commands at "
+                               "whatever aw.addr holds: with W data arriving before AW (legal AXI) memory is read and written at a wrong address" %
+                               (idle, l.value.v, sorted(g)), l.loc)
+    gr = w.single_comb_def(Sym("rmw_wgrant"))
+    gk = litset(conj(gr)) if gr is not None else set()
+    ob8.instance("rmw_wgrant", sorted(gk))
+    if ob8.need(gr is not None, "rmw_wgrant definition not found"):
+        if not (gk & {"~w_buffer.level", "~w_buffer.source.valid", key(Op("==", (Sym("w_buffer.level"), Const(0))))}):
+            ob8.refute("rmw-grant-ignores-buffered-beats", "rmw_wgrant is %s: it only looks at the reservation counter (beats already commanded), not at the "
+                       "write buffer's occupancy, so a partial-strobe beat behind still-uncommanded full beats starts the RMW while aw points at an older "
+                       "beat: the read-modify-write merges the bytes of the wrong address" % sorted(gk), None)
+    v = wview(ctx, False)
+    rp = [d for d in v.drivers("resp_buffer.sink.valid") if is1(d.value)]
+    if ob9.need(len(rp) == 1, "B response push not found"):
+        g = v.guard_keys(rp[0], False)
+        ob9.instance("B response push", sorted(g))
+        if "id_buffer.source.valid" not in g:
+            ob9.refute("bid-without-valid-id", "the B response is pushed under %s with resp.id = id_buffer.source.id, without id_buffer.source.valid: when the "
+                       "native port accepts a single-beat write's command and data in the same cycle the ID entry is only being pushed, so the response "
+                       "carries a stale ID and all later IDs are shifted by one" % sorted(g), rp[0].loc)
+
+
 def run(ctx):
+    rmw_and_ids(ctx)
     write_path(ctx)
     read_path(ctx)
     shared_cmd(ctx)
